@@ -503,6 +503,40 @@ def find_loops(mask):
     return res
 
 
+
+def loop_spans(mask):
+    """[(keyword_offset, body_open, body_close, header_text_span)] for every loop, in textual order"""
+    res = []
+    for k0 in find_loops(mask):
+        k = k0
+        depth = 0
+        while k < len(mask):
+            ch = mask[k]
+            if ch in "([":
+                depth += 1
+            elif ch in ")]":
+                depth -= 1
+            elif ch == "{" and depth == 0:
+                break
+            k += 1
+        if k >= len(mask):
+            continue
+        res.append((k0, k, match_brace(mask, k)))
+    return res
+
+
+def resolve_loop(sel, body, where):
+    """loop selector -> ordinal. `3` = third loop in textual order; `/regex/` = the unique loop whose header
+    (text between the loop keyword and its `{`) matches the regex - robust against reordered loops."""
+    if isinstance(sel, int):
+        return sel
+    bm = mask_rust(body)
+    spans = loop_spans(bm)
+    hits = [i for i, (a, b, c) in enumerate(spans) if re.search(sel, body[a:b])]
+    if len(hits) != 1:
+        return None
+    return hits[0]
+
 # --------------------------------------------------------------------------------------------
 # Template processing
 # --------------------------------------------------------------------------------------------
@@ -624,8 +658,12 @@ def parse_template(path):
                     spec["clauses"].append(c)
                     spec["_last"] = c
                 elif key.startswith("loop "):
-                    _, n, what = key.split()
-                    c = {"loop": int(n), "kind": what, "text": val, "tline": i + 1}
+                    mm = re.match(r"loop\s+(/.*/|\d+)\s+(\w+)$", key)
+                    if not mm:
+                        raise SystemExit(f"{path}:{i+1}: bad loop directive `{key}`")
+                    n, what = mm.group(1), mm.group(2)
+                    n = int(n) if n.isdigit() else n[1:-1]
+                    c = {"loop": n, "kind": what, "text": val, "tline": i + 1}
                     spec["loops"].append(c)
                     spec["_last"] = c
                 elif key in ("rewrite", "rewrite*"):
@@ -905,10 +943,28 @@ def generate(unit, template_path, canary=False, extra_fns=()):
                 if pos in ("after-call", "before-call"):
                     # anchor = `<callee>#<k>`: after the statement containing the k-th call of <callee> (robust against
                     # changes of the arguments and of formatting)
-                    callee, _, kth = anchor.partition("#")
+                    callee, _, kth = anchor.rpartition("#") if "#" in anchor else (anchor, "", "")
+                    scope = None
+                    if "@" in callee:
+                        callee, scope = callee.split("@", 1)
                     bm = mask_rust(body)
                     crx = callee[1:] if callee.startswith("~") else re.escape(callee)    # `~` = regex for the callee name
                     calls = [m for m in re.finditer(r"\b(?:" + crx + r")\s*\(", bm)]
+                    if scope is not None:
+                        # `callee@top#k`: k-th call outside every loop; `callee@loop2#k` / `callee@loop/regex/#k`: k-th call
+                        # inside that loop's body (robust against statements moved across loops)
+                        spans = loop_spans(bm)
+                        if scope == "top":
+                            calls = [m for m in calls if not any(b < m.start() < c for (_, b, c) in spans)]
+                        else:
+                            sel = scope[len("loop"):]
+                            sel = int(sel) if sel.isdigit() else sel.strip("/")
+                            ln = resolve_loop(sel, body, where)
+                            if ln is None or ln >= len(spans):
+                                calls = []
+                            else:
+                                _, b, c = spans[ln]
+                                calls = [m for m in calls if b < m.start() < c]
                     kth = int(kth or 0)
                     if kth >= len(calls):
                         g.rewrites.append({"rule": "R10", "where": where, "before": anchor, "after": f"{pos}: {text}", "missed": True, "count": len(calls)})
@@ -962,7 +1018,14 @@ def generate(unit, template_path, canary=False, extra_fns=()):
                 loops = find_loops(bmask)
                 byloop = {}
                 for c in spec["loops"]:
-                    byloop.setdefault(c["loop"], []).append(c)
+                    n = resolve_loop(c["loop"], body, where)
+                    c["_n"] = n
+                    if n is None:
+                        # a loop contract selected by header regex that cannot be placed: soft (the loop then has no
+                        # invariant and the function fails as `hint-lost`, never as a violation)
+                        g.rewrites.append({"rule": "R10", "where": where, "before": f"loop /{c['loop']}/", "after": c["text"][:80], "missed": True})
+                        continue
+                    byloop.setdefault(n, []).append(c)
                 # insert from the last loop to the first so offsets stay valid
                 for n in sorted(byloop, reverse=True):
                     if n >= len(loops):
@@ -1022,7 +1085,8 @@ def generate(unit, template_path, canary=False, extra_fns=()):
                     continue
                 n = counters.get("loop_" + c["kind"], 0)
                 counters["loop_" + c["kind"]] = n + 1
-                clause_ids.append({"id": f"{unit}::{spec['as'] or spec['name']}::loop{c['loop']}_{c['kind']}#{n}", "kind": "loop_" + c["kind"], "text": c["text"], "gen_line": None})
+                lname = c["loop"] if isinstance(c["loop"], int) else re.sub(r"\W+", "_", c["loop"]).strip("_")
+                clause_ids.append({"id": f"{unit}::{spec['as'] or spec['name']}::loop{lname}_{c['kind']}#{n}", "kind": "loop_" + c["kind"], "text": c["text"], "gen_line": None})
             hint_lost = [r for r in g.rewrites if r.get("where") == where and r.get("missed")
                          and any(t in r.get("rule", "") for t in ("R10", "R11"))]
             g.functions.append({
